@@ -573,8 +573,11 @@ spifconf_shell_expand(spif_charptr_t s)
                         newbuff[j] = *pbuff;
                         break;
                   }
-              } else {
+              } else if (j + 1 < max) {
                   newbuff[j++] = *(pbuff++);
+                  newbuff[j] = *pbuff;
+              } else {
+                  /* Only the backslash fits below the limit. */
                   newbuff[j] = *pbuff;
               }
               break;
